@@ -20,6 +20,15 @@ if False:
     from .name import Object
 
 
+def list_stems(path):
+    # type: (str) -> set[str]
+    """Names of directory entries up to the first dot"""
+    try:
+        return set(r.partition('.')[0] for r in os.listdir(path or '.'))
+    except OSError:
+        return set()
+
+
 class Project(object):
     def __init__(self, sources=None, dyn_modules=None):
         # type: (list[str] | None, list[str] | None) -> None
@@ -27,6 +36,7 @@ class Project(object):
         self._norm_cache = {}  # type: dict[str, list[str]]
         self._module_cache = {}  # type: dict[str, ImportedModule | SourceModule]
         self._context_cache = {}  # type: dict[str, ImportedModule | SourceModule]
+        self._failed_imports = {}  # type: dict[str, set[str]]
         self.dyn_modules = set(dyn_modules or [])
 
     def get_path(self):
@@ -72,7 +82,33 @@ class Project(object):
     def check_changes(self):
         # type: () -> t.Iterator[None]
         self._context_cache.clear()
+        if self._is_stale():
+            self._module_cache.clear()
+            self._failed_imports.clear()
+            self._norm_cache.clear()
         yield
+
+    def _is_stale(self):
+        # type: () -> bool
+        # Cached scopes keep references into other cached modules (resolved
+        # imports, materialized star imports) and remember failed lookups, so
+        # a changed or newly created module invalidates all of them.
+        if any(m.changed for m in self._module_cache.values()):
+            return True
+
+        roots = [(p, list_stems(p)) for p in self.get_path()]
+        for package, names in self._failed_imports.items():
+            parts = package.split('.') if package else []
+            for p, stems in roots:
+                if parts:
+                    if parts[0] not in stems:
+                        continue
+                    stems = list_stems(os.path.join(p, *parts))
+                if any(self._find_module('.'.join(parts + [r]))[0]
+                       for r in names.intersection(stems)):
+                    return True
+
+        return False
 
     def get_nmodule(self, name, filename):
         # type: (str, str) -> SourceModule | ImportedModule
@@ -95,10 +131,32 @@ class Project(object):
         except KeyError:
             pass
 
-        path = self.get_path()
+        filename, is_source = self._find_module(name)
+        module = None  # type: SourceModule | ImportedModule | None
+        if not filename:
+            if name in sys.modules:
+                module = ImportedModule(sys.modules[name])
+        else:
+            if name in self.dyn_modules or not is_source:
+                if name not in sys.modules:
+                    __import__(name)
+                module = ImportedModule(sys.modules[name])
+            else:
+                module = SourceModule(self, name, filename)
+
+        if not module:
+            package, _, mname = name.rpartition('.')
+            self._failed_imports.setdefault(package, set()).add(mname)
+            raise ImportError(name)
+
+        self._module_cache[name] = module
+        return module
+
+    def _find_module(self, name):
+        # type: (str) -> tuple[str | None, bool]
         filename = None
         is_source = False
-        for p in path:
+        for p in self.get_path():
             mpath = os.path.join(p, *name.split('.'))
             for s in SUFFIXES:
                 fname = mpath + s
@@ -116,23 +174,7 @@ class Project(object):
             if filename:
                 break
 
-        module = None  # type: SourceModule | ImportedModule | None
-        if not filename:
-            if name in sys.modules:
-                module = ImportedModule(sys.modules[name])
-        else:
-            if name in self.dyn_modules or not is_source:
-                if name not in sys.modules:
-                    __import__(name)
-                module = ImportedModule(sys.modules[name])
-            else:
-                module = SourceModule(self, name, filename)
-
-        if not module:
-            raise ImportError(name)
-
-        self._module_cache[name] = module
-        return module
+        return filename, is_source
 
     def norm_package(self, package, filename):
         # type: (str, str) -> str
